@@ -122,6 +122,43 @@ class Area:
     def verify(self, obj) -> Optional[str]:
         return None
 
+    def queries(self, obj, inst: dict) -> list:
+        """Every public, read-only looking call the area offers on an object: [(name, thunk)].  Nothing is judged here;
+        c12.hist_case demands that export() and the configuration of the object are the same after each of them."""
+        import inspect
+
+        q: list = [("str", lambda: str(obj)), ("repr", lambda: repr(obj)), ("eq", lambda: obj == obj)]
+        for name in ("get_config", "generate_config", "create_config", "get_yaml", "verify", "create_fuse_script",
+                     "create_crc_hash_fuses_script", "calculate_crc", "create_blhost_batch_config"):
+            fn = getattr(obj, name, None)
+            if callable(fn):
+                q.append((name, fn))
+                try:
+                    if "diff" in inspect.signature(fn).parameters:
+                        q.append((name + "(diff=True)", lambda fn=fn: fn(diff=True)))
+                except (TypeError, ValueError):
+                    pass
+        for prop in ("crc", "size", "mem_type", "config_type", "option_words", "option_words_count", "supported_interfaces",
+                     "fuse_operator_type"):
+            if isinstance(getattr(type(obj), prop, None), property):
+                q.append((prop, lambda prop=prop: getattr(obj, prop)))
+        if hasattr(obj, "export") and "add_seal" in getattr(getattr(obj.export, "__code__", None), "co_varnames", ()):
+            q.append(("export(add_seal=True)", lambda: obj.export(add_seal=True, draw=False)))
+        regs = self.registers(obj)
+        if regs is not None:
+            q += [("registers.image_info", lambda: regs.image_info().export()),
+                  ("registers.get_validation_schema", regs.get_validation_schema),
+                  ("registers.get_config", regs.get_config),
+                  ("registers.get_config(diff=True)", lambda: regs.get_config(diff=True)),
+                  ("registers.get_reg_names(group)", lambda: regs.get_reg_names(include_group_regs=True)),
+                  ("registers.get_registers(group)", lambda: regs.get_registers(include_group_regs=True)),
+                  ("registers.get_diff", lambda: regs.get_diff(regs)),
+                  ("registers.str", lambda: str(regs)),
+                  ("registers.eq", lambda: regs == regs)]
+        q.append(("template", lambda: self.template(inst)))
+        q.append(("validate(own config)", lambda: self.validate(inst, copy.deepcopy(self.config(obj)))))
+        return q
+
     def key_path(self, inst: dict) -> list[str]:
         return list(inst["sub"])
 
